@@ -8,6 +8,7 @@ import Proofs.Lemmas.Router.Rp2_Payload
 import Proofs.Lemmas.Router.Rp5_Reach
 import Proofs.Lemmas.Router.Rp9_Reach
 import Proofs.Lemmas.Router.Rp10_Reach
+import Proofs.Lemmas.Router.Rp12_Resume
 namespace C17
 open Router Router.Rp3 CommitLog
 
@@ -252,47 +253,38 @@ theorem at_most_one_member_partial (gname : String) (idx : Nat) (s s2 : RState) 
 
 /-- the full-strength history statement is NOT claimed, and is false for the code as it is: the
     rewind on disconnect re-forwards. What the rewind does (model level): the saved request and the
-    group's cursor are both set back to the first unacknowledged cursor of the filter. -/
+    group's cursor are both set to the least unacknowledged cursor of the filter's log. -/
 theorem rewind_moves_group_cursor_back (sh : List (String × SharedGroup)) (gname : String) (grp : SharedGroup)
     (r : DataRequest) (c : Router.Cursor) (retx : List (Nat × Router.Cursor))
     (hr : nlookup r.filterIdx retx = some c) (hg : r.group = some gname) (hs : alookup gname sh = some grp) :
     alookup gname (rewindRequests sh retx [r] []).1 = some { grp with cursor := c } := by
   simp [rewindRequests, hr, hg, hs, alookup_ainsert_same]
 
-/-- the retransmission cursor of a filter index is the cursor of the FIRST window entry with that
-    index — whichever of the connection's requests on that log (a plain subscription, this group,
-    another group on the same path) the entry was forwarded for: window entries do not record it -/
-theorem retransmission_cursor_is_first_of_index (pk fi : Nat) (c : Router.Cursor) (rest : List (Nat × Nat × Option Router.Cursor)) :
-    nlookup fi (retransmissionMap ((pk, fi, some c) :: rest) []) = some c := by
-  have keep : ∀ (l : List (Nat × Nat × Option Router.Cursor)) (acc : List (Nat × Router.Cursor)),
-      nlookup fi acc = some c → nlookup fi (retransmissionMap l acc) = some c := by
-    intro l
-    induction l with
-    | nil => intro acc h; simpa [retransmissionMap] using h
-    | cons e l ih =>
-      intro acc h
-      obtain ⟨pk', fi', oc⟩ := e
-      cases oc with
-      | none => simp only [retransmissionMap]; exact ih acc h
-      | some c' =>
-        simp only [retransmissionMap]
-        split
-        · exact ih acc h
-        · exact ih _ (by rw [nlookup_append', h]; rfl)
-  simp only [retransmissionMap, nlookup, Option.isSome_none, Bool.false_eq_true, if_false, List.nil_append]
-  exact keep rest _ (by simp [nlookup])
+/-- the retransmission cursor of a filter index is the LEAST cursor (tuple order) among the window entries
+    with that index — whichever of the connection's requests on that log (a plain subscription, this
+    group, another group on the same path) the entries were forwarded for: window entries do not record
+    it, the minimum is taken over all of them.
+    (Restated after the repair of `retransmission_map`; formerly `retransmission_cursor_is_first_of_index`.) -/
+theorem retransmission_cursor_is_least_of_index (fi : Nat) (w : List (Nat × Nat × Option Router.Cursor)) (c : Router.Cursor) :
+    nlookup fi (retransmissionMap w []) = some c ↔
+      (∃ e ∈ w, e.2.1 = fi ∧ e.2.2 = some c) ∧
+      ∀ e ∈ w, e.2.1 = fi → ∀ c', e.2.2 = some c' → Router.cursorLe c c' := by
+  rw [retx_lookup_least]; exact leastCursor_some_iff fi c w
 
 /-- C17 `rewind_can_skip_entries` (kernel-checked witness of the open defect; the model reproduces the
     code). The departing persistent client `a` has a plain subscription `t` and the shared one
-    `$share/g/t` on the same log (index 0). Its window holds pkid 3 = offset 2 of the PLAIN subscription,
-    then pkid 4 = offset 0 forwarded through the group; the group `g/t` (remaining member `b`) stands at
-    `(0,1)`: offset 1 has not been forwarded through the group. The rewind takes the first cursor of
-    index 0, `(0,2)`, for both saved requests AND for the group: the group's cursor jumps FORWARD from
-    `(0,1)` to `(0,2)` — offsets 0 (unacknowledged) and 1 (never forwarded) are skipped for the group.
-    (`group_liveness` / `quiescent_complete_group` are statements about the cursor: they hold, and do not
-    say that skipped entries were handed out.) -/
+    `$share/g/t` on the same log (index 0). It has acknowledged everything forwarded to it through the
+    group; its window still holds pkid 4 = offset 2 of the PLAIN subscription; the group `g/t` (remaining
+    member `b`) stands at `(0,1)`: offset 1 has not been forwarded through the group. The rewind takes the
+    least cursor of index 0 — `(0,2)`, an entry of the OTHER subscription — for both saved requests AND
+    for the group: the group's cursor jumps FORWARD from `(0,1)` to `(0,2)`, offset 1 (never forwarded
+    through the group) is skipped for the group. Since `retransmission_map` takes the minimum, a forward
+    jump needs the departing member to have no unacknowledged group forward below the group's cursor
+    (before the repair the first window entry decided, and unacknowledged group forwards could be skipped
+    too). (`group_liveness` / `quiescent_complete_group` are statements about the cursor: they hold, and do
+    not say that skipped entries were handed out.) -/
 theorem rewind_can_skip_entries :
-    let window : List (Nat × Nat × Option Router.Cursor) := [(3, 0, some (0, 2)), (4, 0, some (0, 0))]
+    let window : List (Nat × Nat × Option Router.Cursor) := [(4, 0, some (0, 2))]
     let groups : List (String × SharedGroup) := [("g/t", ⟨["b"], 0, (0, 1), .roundRobin⟩)]
     let saved : List DataRequest := [⟨"$share/g/t", 0, 1, (0, 1), false, some "g/t"⟩, ⟨"t", 0, 1, (0, 3), false, none⟩]
     retransmissionMap window [] = [(0, (0, 2))] ∧
@@ -300,6 +292,22 @@ theorem rewind_can_skip_entries :
     (rewindRequests groups (retransmissionMap window []) saved []).2.map (fun r => (r.filter, r.cursor)) =
       [("$share/g/t", (0, 2)), ("t", (0, 2))] ∧
     rewoundLogs groups (retransmissionMap window []) saved = [0] := by decide
+
+/-- the window of the former witness (and of the corpus case `group-cursor-skipped-by-other-subscription`):
+    pkid 3 = offset 2 of the plain subscription, then pkid 4 = offset 0 forwarded through the group,
+    group at `(0,1)`. With the minimum the rewind now takes `(0,0)`: the group's cursor goes BACK from
+    `(0,1)` to `(0,0)` (offset 0 is forwarded again through the group, nothing is skipped), and the saved
+    PLAIN request goes back to `(0,0)` as well — below its own unacknowledged offset 2: offsets 0 and 1,
+    which the client had acknowledged on the plain subscription, are sent to it again after a resume
+    (the backward side of the conflation: duplicates, no loss) -/
+theorem rewind_of_former_witness_goes_back :
+    let window : List (Nat × Nat × Option Router.Cursor) := [(3, 0, some (0, 2)), (4, 0, some (0, 0))]
+    let groups : List (String × SharedGroup) := [("g/t", ⟨["b"], 0, (0, 1), .roundRobin⟩)]
+    let saved : List DataRequest := [⟨"$share/g/t", 0, 1, (0, 1), false, some "g/t"⟩, ⟨"t", 0, 1, (0, 3), false, none⟩]
+    retransmissionMap window [] = [(0, (0, 0))] ∧
+    (rewindRequests groups (retransmissionMap window []) saved []).1.map (fun p => (p.1, p.2.cursor)) = [("g/t", (0, 0))] ∧
+    (rewindRequests groups (retransmissionMap window []) saved []).2.map (fun r => (r.filter, r.cursor)) =
+      [("$share/g/t", (0, 0)), ("t", (0, 0))] := by decide
 
 /-! ### a parked member is woken when the turn passes to it (repair of the shared-subscription stall)
 
@@ -769,5 +777,40 @@ def regressionView (n : Nat) : Option (Bool × List Nat × Nat × Option Router.
 #guard regressionView 22 == some (true, [1], 1, some (0, 0), [])
 -- two `consume` calls later b has been forwarded offset 0 and the group's cursor is at the end again
 #guard regressionView 24 == some (false, [], 0, some (0, 1), [some (0, 0)])
+
+/-! ### the forward jump is still reachable after the repair of `retransmission_map` (evaluated) -/
+
+/-- `a` (persistent) subscribes to `$share/g/t` and `t`, `b` to `$share/g/t`; three publishes 100, 101, 102;
+    one sweep of `a`: offset 0 through the group (pkid 1; the turn passes to `b`, group cursor 1) and
+    offsets 0, 1, 2 through the plain subscription (pkids 2, 3, 4); `a` acknowledges pkids 1, 2, 3 and its
+    link drops before `b` is swept -/
+def forwardJumpOps : List (Op × List Choice) :=
+  let pub (x : UInt8) : Op × List Choice := (.push 2 (.publish ⟨0, 0, false, false, "t".toUTF8.toList, [x], none, [], false⟩), [])
+  [(.connect ⟨0, "a", false, false, 0, none⟩, []), (.connect ⟨1, "b", true, false, 0, none⟩, []),
+   (.connect ⟨2, "p", true, false, 0, none⟩, []),
+   (.push 0 (.subscribe 1 none [⟨"$share/g/t", 1⟩, ⟨"t", 1⟩]), []), (.event 0 .deviceData, []),
+   (.push 1 (.subscribe 1 none [⟨"$share/g/t", 1⟩]), []), (.event 1 .deviceData, [])] ++
+  List.replicate 6 (.consume, [.retained []]) ++
+  [pub 100, pub 101, pub 102, (.event 2 .deviceData, [.matches [0], .matches [0], .matches [0]]), (.consume, []),
+   (.push 0 (.puback 1), []), (.push 0 (.puback 2), []), (.push 0 (.puback 3), []), (.event 0 .deviceData, []),
+   (.event 0 .disconnect, [])] ++ List.replicate 6 (.consume, [])
+
+/-- `a`'s window (pkid, offset); the group's cursor; the payloads forwarded to `b` -/
+def forwardJumpView (n : Nat) : Option (List (Nat × Nat) × Option Router.Cursor × List (List UInt8)) :=
+  match run (init ⟨10, 1024, 2, 10, .roundRobin⟩) (forwardJumpOps.take n) with
+  | .error _ => none
+  | .ok s =>
+    some (((getConn s 0).map (fun c => c.out.inflight.filterMap (fun e => e.2.2.map (fun cur => (e.1, cur.2))))).getD [],
+      (alookup "g/t" s.shared).map (·.cursor),
+      (getLink s 1).obuf.filterMap (fun n => match n with | .forward p _ => some p.payload | _ => none))
+
+-- after `a`'s sweep: window = group offset 0, plain offsets 0, 1, 2; the group stands at offset 1
+#guard forwardJumpView 18 == some ([(1, 0), (2, 0), (3, 1), (4, 2)], some (0, 1), [])
+-- after the three acks only the plain forward of offset 2 is unacknowledged
+#guard forwardJumpView 22 == some ([(4, 2)], some (0, 1), [])
+-- `a`'s link drops: the group's cursor jumps FORWARD to offset 2
+#guard forwardJumpView 23 == some ([], some (0, 2), [])
+-- `b` is sent 102 only: 101 (offset 1) is never handed to any member of the group
+#guard forwardJumpView 29 == some ([], some (0, 3), [[102]])
 
 end C17
